@@ -1,12 +1,12 @@
 """C01 — Coq theorems over coq/Model/Pool.v (lists regenerated from the source) + simulation of the real executor code with monitors."""
 from checks import simcommon as S
 
-FAMILIES = ['plain', 'kill', 'fatal', 'timeout', 'shutdown', 'killshutdown', 'resize', 'latekill', 'full', 'cancelfail', 'mix']
+FAMILIES = ['plain', 'kill', 'fatal', 'timeout', 'shutdown', 'killshutdown', 'resize', 'latekill', 'full', 'cancelfail', 'mix', 'cbreuse']
 PER_FAMILY = (150, 4000)
 
 
-PROOF = S.pool_proof('C01', ['C01_manager_never_leaves_a_future_unresolved', 'C01_nothing_is_accepted_afterwards', 'C01_every_future_is_accounted_for', 'C01_exits_never_join_a_live_worker', 'C01_no_wake_up_is_lost', 'C01_failing_the_table_never_kills_the_manager'],
-                    'liveness itself (every future resolves in finite time) is not a theorem: the model has no locks, so the hangs of the real code (H2, H4, H5, H7) are outside it and are searched for by the simulation; proved: the safety core')
+PROOF = S.pool_proof('C01', ['C01_manager_never_leaves_a_future_unresolved', 'C01_nothing_is_accepted_afterwards', 'C01_every_future_is_accounted_for', 'C01_exits_never_join_a_live_worker', 'C01_no_wake_up_is_lost', 'C01_failing_the_table_never_kills_the_manager', 'C01_no_circular_wait', 'C01_lock_order_refuted_with_callbacks_on_a_reusable_executor'],
+                    'liveness itself (every future resolves in finite time) is not a theorem: the hangs of the real code that involve locks kept by dead processes (H2, H4, H5, H7) are outside the models and are searched for by the simulation; proved: the safety core and the absence of circular waits among live threads (lock order read off the source; H15 is the excluded edge)', extra_gen=['LockOrder'])
 
 
 def run(ctx):
